@@ -65,3 +65,48 @@ def clear (l : EL K) : EL K := { l with queue := [] }
 def len (l : EL K) : Nat := l.queue.length
 
 end EL
+
+/-- one operation of the public `EventLoop` API -/
+inductive ELOp (K : Type)
+  | schedule (ts : Int) (k : K)
+  | pop
+  | peek
+  | clear
+  | len
+  | now
+deriving Repr
+
+inductive ELOut (K : Type)
+  | ok
+  | err (e : ELErr)
+  | ev (e : Option (Ev K))
+  | num (n : Int)
+deriving Repr
+
+namespace EL
+variable {K : Type}
+
+/-- apply one API call; a refused call returns the unchanged loop beside the error -/
+def apply (l : EL K) : ELOp K → EL K × ELOut K
+  | .schedule ts k =>
+    match l.schedule ts k with
+    | .ok l' => (l', .ok)
+    | .error e => (l, .err e)
+  | .pop =>
+    match l.pop with
+    | .ok (e, l') => (l', .ev (some e))
+    | .error e => (l, .err e)
+  | .peek => (l, .ev l.peek)
+  | .clear => (l.clear, .ok)
+  | .len => (l, .num l.len)
+  | .now => (l, .num l.now)
+
+/-- a whole history; outputs in call order -/
+def run (l : EL K) : List (ELOp K) → EL K × List (ELOut K)
+  | [] => (l, [])
+  | op :: ops =>
+    let r := l.apply op
+    let rs := run r.1 ops
+    (rs.1, r.2 :: rs.2)
+
+end EL
